@@ -657,7 +657,7 @@ struct numeric_limits<float> {
 
     static constexpr int digits       = FLT_MANT_DIG;
     static constexpr int digits10     = FLT_DIG;
-    static constexpr int max_digits10 = DECIMAL_DIG;
+    static constexpr int max_digits10 = 2 + FLT_MANT_DIG * 301L / 1000;
 
     static constexpr bool is_signed  = true;
     static constexpr bool is_integer = false;
@@ -701,7 +701,7 @@ struct numeric_limits<double> {
 
     static constexpr int digits       = DBL_MANT_DIG;
     static constexpr int digits10     = DBL_DIG;
-    static constexpr int max_digits10 = DECIMAL_DIG;
+    static constexpr int max_digits10 = 2 + DBL_MANT_DIG * 301L / 1000;
 
     static constexpr bool is_signed  = true;
     static constexpr bool is_integer = false;
